@@ -32,9 +32,9 @@ import (
 type C08Case struct {
 	Client  string     `json:"client"` // tm | bsc | eth
 	Entries []C08Entry `json:"entries"`
-	Split   int        `json:"split"`  // entries[:split] exist in the first version already
-	Gap     uint64     `json:"gap"`    // latest client height = second version's height + gap
-	Delay   uint64     `json:"delay"`  // tm: seconds; eth: blocks; bsc: validator count (delay blocks = 2n/3+1)
+	Split   int        `json:"split"` // entries[:split] exist in the first version already
+	Gap     uint64     `json:"gap"`   // latest client height = second version's height + gap
+	Delay   uint64     `json:"delay"` // tm: seconds; eth: blocks; bsc: validator count (delay blocks = 2n/3+1)
 	Queries []C08Query `json:"queries"`
 }
 
@@ -47,14 +47,14 @@ type C08Entry struct {
 }
 
 type C08Query struct {
-	Entry  int    `json:"entry"`  // which entry is asked about (mod); Absent shifts its sequence / channel
-	Absent int    `json:"absent"` // 0 the entry itself, 1 other sequence, 2 other channel, 3 other kind
-	Claim  int    `json:"claim"`  // 0 the stored value, 1 one bit flipped, 2 another entry's value, 3 value+1 (clean) / truncated
-	Ver    int    `json:"ver"`    // 0 second version, 1 first version
-	Proof  int    `json:"proof"`  // 0 genuine, 1 proof of another key, 2 proof from the other version, 3 truncated, 4 nodes reordered, 5 byte flipped, 6 proof for another contract (mpt) / other store key (tm)
-	Height int    `json:"height"` // 0 the version's height, 1 a height without consensus state, 2 above the latest height
-	Wait   int    `json:"wait"`   // tm: 0 delay elapsed, 1 exactly elapsed, 2 one nanosecond short, 3 far short
-	Aux    int    `json:"aux"`
+	Entry  int `json:"entry"`  // which entry is asked about (mod); Absent shifts its sequence / channel
+	Absent int `json:"absent"` // 0 the entry itself, 1 other sequence, 2 other channel, 3 other kind
+	Claim  int `json:"claim"`  // 0 the stored value, 1 one bit flipped, 2 another entry's value, 3 value+1 (clean) / truncated
+	Ver    int `json:"ver"`    // 0 second version, 1 first version
+	Proof  int `json:"proof"`  // 0 genuine, 1 proof of another key, 2 proof from the other version, 3 truncated, 4 nodes reordered, 5 byte flipped, 6 proof for another contract (mpt) / other store key (tm)
+	Height int `json:"height"` // 0 the version's height, 1 a height without consensus state, 2 above the latest height
+	Wait   int `json:"wait"`   // tm: 0 delay elapsed, 1 exactly elapsed, 2 one nanosecond short, 3 far short
+	Aux    int `json:"aux"`
 }
 
 var c08Chains = []string{"chain-alpha", "chain-bravo", "chain-charl", "eth-main", "bsc.test_1"}
